@@ -1,4 +1,5 @@
 import RtcModel.Drv.C01
+import RtcModel.SctpSend
 namespace RtcModel.Drv.C12
 open RtcModel.Sctp RtcModel.Drv
 
@@ -42,8 +43,45 @@ def doChanType (args : List String) : String :=
     | _ => "bad-args"
   | _ => "bad-args"
 
+/-- sent-queue record of the `prsend` stream: `tsn,len,tc,ab,nr,inf,ack,sid,ssn,maxr,exp` -/
+def parsePrRec (t : String) : Option SRec :=
+  match fields t with
+  | [tsn, len, tc, ab, nr, inf, ack, sid, ssn, maxr, exp] => do
+    some { tsn := ← u32? tsn, len := ← len.toNat?, transmitCount := ← tc.toNat?, abandoned := ab = "1",
+           needsRetransmit := nr = "1", inFlight := inf = "1", acked := ack = "1", sid := ← u16? sid, ssn := ← u16? ssn,
+           maxRetransmits := ← (if maxr = "-" then some none else (u16? maxr).map some), hasExpiry := exp = "1" }
+  | _ => none
+
+def showPrRec (r : SRec) : String :=
+  let mr := match r.maxRetransmits with | none => "-" | some v => toString v
+  s!"{r.tsn},{r.len},{r.transmitCount},{b01 r.abandoned},{b01 r.needsRetransmit},{b01 r.inFlight},{b01 r.acked},{r.sid},{r.ssn},{mr},{b01 r.hasExpiry}"
+
+/-- sort (stream, ssn) pairs by stream id (the code keeps them in a HashMap) -/
+def sortPairs (ps : List (UInt16 × UInt16)) : List (UInt16 × UInt16) :=
+  ps.foldr (fun p acc => (acc.filter (fun q => q.1 < p.1)) ++ [p] ++ (acc.filter (fun q => !(q.1 < p.1)))) []
+
+/-- `prsend <advanced> <peerCumAck> <expired tsns|-> rec …`: `update_advanced_peer_ack_point` and the
+FORWARD-TSN chunk -/
+def doPrSend (args : List String) : String :=
+  match args with
+  | adv :: pc :: ex :: recs =>
+    match u32? adv, u32? pc, (if ex = "-" then some [] else (fields ex).mapM u32?), (recs.filter (· ≠ "-")).mapM parsePrRec with
+    | some adv, some pc, some ex, some q =>
+      let fl := ((q.filter (·.inFlight)).map (·.len)).sum
+      let o := updateAdvanced ex q fl adv pc false []
+      let ps := sortPairs o.pairs
+      let chunk := match encForwardTsn o.advanced pc ps with
+        | none => "-"
+        | some c => if ps.length ≤ 1 then hex c else s!"multi:{c.length}"
+      let pt := if ps.isEmpty then "-" else ",".intercalate (ps.map fun p => s!"{p.1}:{p.2}")
+      s!"adv={o.advanced} pend={b01 o.pending} fl={o.flight} pairs={pt} chunk={chunk} | " ++
+        (if o.sentQ.isEmpty then "-" else " ".intercalate (o.sentQ.map showPrRec))
+    | _, _, _, _ => "bad-args"
+  | _ => "bad-args"
+
 def handle (stream : String) (args : List String) : String :=
   match stream with
+  | "prsend" => doPrSend args
   | "rx" => C01.doRx args
   | "dcep" => doDcep args
   | "chantype" => doChanType args
